@@ -426,6 +426,15 @@ func init() {
 			st.Assume(Eq(Eq(n, IntC64(0)), Eq(a, IntC64(0))))
 			return []Value{SliceV{SymLen: n}}
 		}
+		if ex.IntMode && ex.StubSets["absbits"] && !a.IsConst() && a.Hi != nil {
+			// bounded value, length-only view without forking: n = number of k with |a| >= 2^(64k)
+			maxW := (a.Hi.BitLen() + 63) / 64
+			n := IntC64(0)
+			for k := 0; k < maxW; k++ {
+				n = IAdd(n, Ite(ICmp(">=", a, IntC(pow2(64*k))), IntC64(1), IntC64(0)))
+			}
+			return []Value{SliceV{SymLen: n}}
+		}
 		nw := ex.bigUnitLen(st, a, 64)
 		// nb fixes the byte length; the word count follows
 		uk := IntKind{64, false}
